@@ -896,6 +896,7 @@ pub fn execute(plan: &Plan, script: Option<&[Action]>, budgets: &[u32]) -> RunRe
             Outcome::Returned(o) => {
                 log.str(&o.code);
                 log.str(&o.sig);
+                log.str(&o.spans);
                 for d in &o.diags {
                     log.str(d);
                 }
